@@ -125,4 +125,11 @@ def cmpSpec (a b : Number) : Ordering :=
   if a.isFloat || b.isFloat then F64.cmp (toF64 a) (toF64 b)
   else XVal.cmp (valX a) (valX b)
 
+/-- the four instruction variants of one operator (`CallNumber…`, `ExecuteNumber…` and their
+    `Default…` twins): they differ in the continuation (`p += 1` / `p = cp`) and in inference counting;
+    Extracted/CmpInstrs.lean lists, from the source, on which `Ordering`s each of the 24 succeeds. -/
+inductive Variant where
+  | call | execute | defaultCall | defaultExecute
+  deriving Repr, DecidableEq
+
 end Scryer.NumCmp
